@@ -297,6 +297,8 @@ def strat_op(draw, n, allow_reuse_of=0, differentiable_only=False, depth=0):
         nc = draw(st.integers(1, n - k))
         return dict(op='cmatrix', c=sorted(perm[:nc]), t=list(perm[nc:nc + k]), prng=draw(st.integers(0, 2 ** 31)))
     if kind == 'custom_u':
+        if draw(st.integers(0, 2)) == 0:
+            return dict(op='custom_p', q=[perm[0]], args=[draw(st.one_of(st.just(0.0), ang))])
         if n >= 2 and draw(st.booleans()):
             return dict(op='custom_u2', q=list(perm[:2]), args=[draw(ang)])
         return dict(op='custom_u', q=[perm[0]], args=[draw(ang), draw(ang)])
@@ -355,8 +357,28 @@ def _hf_rxy(theta):
     return np.cos(theta / 2)[..., None, None] * np.eye(4) - 1j * np.sin(theta / 2)[..., None, None] * XY
 
 
+def _hf_phx(phi):
+    """one-qubit user gate [[0, e^{-i phi}], [e^{i phi}, 0]]: a parametrised gate that is NOT the identity at phi = 0 (numpy or torch)"""
+    import torch
+    if isinstance(phi, torch.Tensor):
+        cdt = torch.complex64 if phi.dtype == torch.float32 else torch.complex128
+        e = torch.exp(1j * phi.to(cdt))
+        z = torch.zeros_like(e)
+        return torch.stack([z, e.conj(), e, z], dim=-1).view(*phi.shape, 2, 2)
+    phi = np.asarray(phi, dtype=np.float64)
+    e = np.exp(1j * phi)
+    z = np.zeros_like(e)
+    return np.stack([z, e.conj(), e, z], axis=-1).reshape(*phi.shape, 2, 2)
+
+
 def make_custom_classes():
     nq = _nq()
+
+    class PhxGate(nq.sim.ParameterGate):
+        def __init__(self, index, phi=0, requires_grad=True):
+            super().__init__(kind='unitary', hf0=_hf_phx, args=(phi,), name='phx', requires_grad=requires_grad)
+            self.index = (int(index),)
+    make_custom_classes.PhxGate = PhxGate
 
     class RxyGate(nq.sim.ParameterGate):
         def __init__(self, index, theta=0, requires_grad=True):
@@ -394,6 +416,7 @@ def build(program, requires_grad=False):
     circ.register_custom_gate('ry_rx', RyRxGate)
     circ.register_custom_gate('perm', PermGate)
     circ.register_custom_gate('rxy', make_custom_classes.RxyGate)
+    circ.register_custom_gate('phx', make_custom_classes.PhxGate)
     reflist = []
     gates = []  # (gate object or None, ref entry) per top-level op for 'reuse'
     sig = set()
@@ -455,6 +478,12 @@ def build(program, requires_grad=False):
             e = (_hf_rxy(op['args'][0]), tuple(op['q']), ())
             sig.add('custom-unitary')
             sig.add('custom two-qubit' + (' descending wires' if op['q'][0] > op['q'][1] else ''))
+        elif name == 'custom_p':
+            g = c.phx(op['q'][0], op['args'][0], requires_grad=requires_grad)
+            e = (_hf_phx(op['args'][0]), tuple(op['q']), ())
+            sig.add('custom-unitary')
+            if op['args'][0] == 0.0:
+                sig.add('custom gate at parameter 0 (not the identity)')
         elif name == 'custom_c':
             g = c.perm(tuple(op['q']), op['prng'])
             e = (_rand_unitary_from_seed(op['prng'], len(op['q'])), tuple(op['q']), ())
@@ -497,6 +526,7 @@ def build(program, requires_grad=False):
             c0.register_custom_gate('ry_rx', RyRxGate)
             c0.register_custom_gate('perm', PermGate)
             c0.register_custom_gate('rxy', make_custom_classes.RxyGate)
+            c0.register_custom_gate('phx', make_custom_classes.PhxGate)
             es = []
             for o in op['ops']:
                 _, e = emit(c0, o)
